@@ -18,11 +18,18 @@
      primary before a commit, fed the records the commit emitted ([c06_emitted_records]) in
      emission order, holds the same data as the primary after it; by induction over transactions,
      after any history.  Hypotheses: Count exact (C11) and the key column does not merge.
+   [c06_replica_converges_under_any_interleaving] (ConcStore.v): the whole statement for ANY
+     number of concurrent writers, each committing a transaction over any number of blocks under
+     the blocks' latches, in ANY interleaving: in every reachable state - hence whenever the
+     primary is quiescent - the replica that replayed the stream emitted so far, in emission
+     order, holds the primary's data (fill, Count, every column, every computed column, key
+     table).  A block's commit (apply + append under the latch) is one step of that LTS; that it
+     is indivisible for the other threads is Conc.v's invariant.
    The defect this work found and repaired (D25): Replay used to re-apply the other blocks of a
    multi-block transaction when fed cloned buffers; the model's [replay] applies one block. *)
 From stdpp Require Import gmap list sorting.
 From ColumnV Require Import Bytes Store StoreProofs StoreProofs2 StoreProofs5.
-From ColumnV Require Conc.
+From ColumnV Require Conc ConcStore.
 Local Open Scope N_scope.
 
 Theorem c06_replay_reproduces : ∀ c v l, foldl (cstep c) v (rw_list c v l) = foldl (cstep c) v l.
@@ -66,3 +73,10 @@ Theorem c06_emitted_records : ∀ bs s t,
   emits s t = true → emitted (commit_blocks s t bs) = emitted s ++ block_recs s t bs.
 Proof. exact emitted_is_block_recs. Qed.
 Print Assumptions c06_emitted_records.
+
+Theorem c06_replica_converges_under_any_interleaving : ∀ s0 txns r0 s,
+  ConcStore.all_emit s0 txns → same_data r0 s0 → Quiescent s0 → pk_plain s0 →
+  ConcStore.reach (ConcStore.init s0 txns) s →
+  same_data (foldl replay r0 (drop (length (emitted s0)) (emitted (ConcStore.st s)))) (ConcStore.st s).
+Proof. exact ConcStore.replica_converges. Qed.
+Print Assumptions c06_replica_converges_under_any_interleaving.
